@@ -69,12 +69,29 @@ package vm
 
 // ---- run.go ----------------------------------------------------------------------------------------
 
+//@ define tdiv(a int, b int) int = (a >= 0 || a % b == 0) ? a / b : a / b + 1
+
+//@ assumed func (n json.Number) String() (r string)
+//@   ensures r == n
+
+// numberToInteger: the decimal rendering of the integer part (truncation toward zero) of the exact rational the JSON
+// number denotes; ratparses / ratnum / ratden are what big.Rat.SetString parses (assumed exact, as math/big documents)
+//@ func numberToInteger(n json.Number) (r string)
+//@   property C36
+//@   ensures ratparses(n) ==> r == str(tdiv(ratnum(n), ratden(n)))
+//@   ensures !ratparses(n) ==> r == n
+
 //@ func (s ScriptV1) ToCore() (r Script)
 //@   property C36 C38
 //@   ensures r.Plain == s.Plain && r.Template == s.Template && r.Vars != nil
+//@   ensures forall k string :: {has(s.Vars, k)} {has(r.Vars, k)} (has(s.Vars, k) && is(s.Vars[k], json.Number) && ratparses(s.Vars[k].(json.Number)) && ratnum(s.Vars[k].(json.Number)) % ratden(s.Vars[k].(json.Number)) == 0) ==> has(r.Vars, k) && r.Vars[k] == str(ratnum(s.Vars[k].(json.Number)) / ratden(s.Vars[k].(json.Number)))
+//@   ensures forall k string :: {has(s.Vars, k)} {has(r.Vars, k)} (has(s.Vars, k) && is(s.Vars[k], map[string]any) && is(s.Vars[k].(map[string]any)["amount"], json.Number) && ratparses(s.Vars[k].(map[string]any)["amount"].(json.Number))) ==> has(r.Vars, k) && r.Vars[k] == sprintf("%s %s", s.Vars[k].(map[string]any)["asset"], str(tdiv(ratnum(s.Vars[k].(map[string]any)["amount"].(json.Number)), ratden(s.Vars[k].(map[string]any)["amount"].(json.Number)))))
 //@   loop 1:
-//@     invariant s.Script.Vars != nil && s.Script.Plain == old(s.Script.Plain) && s.Script.Template == old(s.Script.Template)
-//@   note JSON numbers reach this code as float64 (encoding/json); amounts above 2^53 are already rounded there and int(amount) truncates: finding F7, not decided by this contract
+//@     visited vk
+//@     invariant s.Script.Vars != nil && s.Script.Plain == old(s.Script.Plain) && s.Script.Template == old(s.Script.Template) && s.Vars == old(s.Vars)
+//@     invariant forall k string :: {has(s.Vars, k)} {has(s.Script.Vars, k)} (vk[k] && has(s.Vars, k) && is(s.Vars[k], json.Number) && ratparses(s.Vars[k].(json.Number)) && ratnum(s.Vars[k].(json.Number)) % ratden(s.Vars[k].(json.Number)) == 0) ==> has(s.Script.Vars, k) && s.Script.Vars[k] == str(ratnum(s.Vars[k].(json.Number)) / ratden(s.Vars[k].(json.Number)))
+//@     invariant forall k string :: {has(s.Vars, k)} {has(s.Script.Vars, k)} (vk[k] && has(s.Vars, k) && is(s.Vars[k], map[string]any) && is(s.Vars[k].(map[string]any)["amount"], json.Number) && ratparses(s.Vars[k].(map[string]any)["amount"].(json.Number))) ==> has(s.Script.Vars, k) && s.Script.Vars[k] == sprintf("%s %s", s.Vars[k].(map[string]any)["asset"], str(tdiv(ratnum(s.Vars[k].(map[string]any)["amount"].(json.Number)), ratden(s.Vars[k].(map[string]any)["amount"].(json.Number)))))
+//@   note float64 values (programmatic callers; JSON decoding no longer produces them since ScriptV1.UnmarshalJSON uses json.Number) keep the lossy int() conversion; finding F7 concerned the JSON path and is fixed
 
 // ---- the VM step (machine.go: tick, Execute; stack.go) — C22 C23 C27 -------------------------------------
 // Trusted about compiler output (and only this): every pop finds a value of the demanded type on the stack
@@ -122,7 +139,7 @@ package vm
 //@   requires m.Program.Instructions[m.P] == program.OP_MAKE_ALLOTMENT ==> len(m.Stack) > 0 && is(m.Stack[len(m.Stack) - 1], *machine.MonetaryInt) && 0 <= val(m.Stack[len(m.Stack) - 1].(*machine.MonetaryInt)) && val(m.Stack[len(m.Stack) - 1].(*machine.MonetaryInt)) < len(m.Stack)
 //@   requires m.Program.Instructions[m.P] == program.OP_FUNDING_ASSEMBLE ==> len(m.Stack) > 0 && is(m.Stack[len(m.Stack) - 1], *machine.MonetaryInt) && 0 <= val(m.Stack[len(m.Stack) - 1].(*machine.MonetaryInt)) && val(m.Stack[len(m.Stack) - 1].(*machine.MonetaryInt)) < len(m.Stack)
 //@   requires m.Program.Instructions[m.P] == program.OP_TAKE_ALWAYS ==> len(m.Stack) > 0 && is(m.Stack[len(m.Stack) - 1], machine.Monetary) && val(m.Stack[len(m.Stack) - 1].(machine.Monetary).Amount) >= 0
-//@   requires m.Program.Instructions[m.P] == program.OP_ALLOC ==> len(m.Stack) > 1 && is(m.Stack[len(m.Stack) - 1], machine.Allotment) && posDen(m.Stack[len(m.Stack) - 1].(machine.Allotment)) && ratsum(m.Stack[len(m.Stack) - 1].(machine.Allotment)) == 1
+//@   requires m.Program.Instructions[m.P] == program.OP_ALLOC ==> len(m.Stack) > 1 && is(m.Stack[len(m.Stack) - 1], machine.Allotment) && ratsum(m.Stack[len(m.Stack) - 1].(machine.Allotment)) == 1
 //@   requires m.Program.Instructions[m.P] == program.OP_ALLOC ==> is(m.Stack[len(m.Stack) - 2], machine.Monetary) && val(m.Stack[len(m.Stack) - 2].(machine.Monetary).Amount) >= 0
 //@   requires m.Program.Instructions[m.P] == program.OP_SAVE ==> len(m.Stack) > 1 && (is(m.Stack[len(m.Stack) - 2], machine.Asset) || (is(m.Stack[len(m.Stack) - 2], machine.Monetary) && val(m.Stack[len(m.Stack) - 2].(machine.Monetary).Amount) >= 0))
 //@   requires wfBal(m.Balances) && wfStack(m.Stack) && m.TxMeta != nil && m.AccountsMeta != nil
@@ -146,7 +163,7 @@ package vm
 //@   ensures err == nil && !finished ==> m.P < len(m.Program.Instructions)
 //@   loop 1:
 //@     invariant unchangedExcept(m, old(m), Stack) && wfStack(m.Stack) && len(portions) == val(n) && i <= val(n)
-//@     invariant forall j int :: {portions[j]} 0 <= j && j < i ==> true
+//@     invariant forall j int :: {portions[j]} 0 <= j && j < i ==> (!portions[j].Remaining ==> portions[j].Specific != nil && deref(portions[j].Specific).den > 0 && deref(portions[j].Specific).num >= 0)
 //@     invariant forall a machine.AccountAddress, x machine.Asset :: {infl(m.Stack, a, x)} {infl(old(m.Stack), a, x)} infl(m.Stack, a, x) == infl(old(m.Stack), a, x)
 //@   loop 2:
 //@     invariant unchangedExcept(m, old(m), Stack) && wfStack(m.Stack) && 1 <= i && i <= n && len(fundings_rev) == n
